@@ -81,6 +81,11 @@ def make_inputs(ctx):
     for (b, z) in pairs:
         cats.append(dict(box=b, zkms=z, nrows=nrows, halo=hs.gen_values(rng, hs.raw_schema(), nrows, npout=2),
                          cleaned=hs.gen_values(rng, hs.cleaned_schema(), nrows, npout=2), particles=True, kind='plain'))
+    # the same kind of catalog spread over several superslab files of unequal, growing and shrinking sizes: whatever is kept
+    # from one file to the next (buffers sized by the first file, per-file temporaries) must not show in any column
+    ns = 7
+    cats.append(dict(box=64.0, zkms=2048.0, nrows=ns, splits=[2, 3, 1, 1], halo=hs.gen_values(rng, hs.raw_schema(), ns, npout=2),
+                     cleaned=hs.gen_values(rng, hs.cleaned_schema(), ns, npout=2), particles=False, kind='split-files'))
     derived = [c for c in user if deps.get(c)]
     loads = []
 
@@ -89,6 +94,17 @@ def make_inputs(ctx):
                       'subsamples': dict(subs) if subs else None})
 
     for ci in range(len(cats)):
+        if cats[ci].get('splits'):
+            for cleaned in (False, True):
+                add(ci, cleaned, None, 'all')
+                add(ci, cleaned, None, 'DEFAULT_FIELDS')
+                for c in derived:
+                    add(ci, cleaned, None, [c])
+                    add(ci, cleaned, None, [c, 'N'])
+                    add(ci, cleaned, None, deps[c][::-1] + [c])
+                for c in ('x_com', 'r50_com', 'sigmav3d_com', 'N', 'id'):
+                    add(ci, cleaned, None, [c])
+            continue
         if ctx.quick() and ci > 0:
             # a second catalog with other unit factors, loaded in the same process after the first one (state kept between
             # catalogs — caches keyed on too little — shows up here); the quick tier asks it for a reduced set of requests
